@@ -500,10 +500,11 @@ def _replace_splice(n, hole, new):
 
 PROFILES = {
     # core fragment (tuples, lambdas) — VM only
-    "core": dict(coregen.PROFILES["core"], stage_sites=3, stage_pct=30),
-    "deep": dict(coregen.PROFILES["deep"], stage_sites=5, stage_pct=30),
+    # records are kept out of staged programs: the staging model (Model/Stage.lean) has no record forms
+    "core": dict(coregen.PROFILES["core"], stage_sites=3, stage_pct=30, records=False, rounding=False),
+    "deep": dict(coregen.PROFILES["deep"], stage_sites=5, stage_pct=30, records=False, rounding=False),
     # scalar programs with state: also compared on WASM
-    "scalar": dict(coregen.PROFILES["scalar"], stage_sites=3, stage_pct=35, kinds=[k for k, _ in KINDS if k != "genlam"]),
+    "scalar": dict(coregen.PROFILES["scalar"], rounding=False, stage_sites=3, stage_pct=35, kinds=[k for k, _ in KINDS if k != "genlam"]),
 }
 
 
